@@ -25,6 +25,7 @@ def contracts(tier):
 def extra_obligations(tier):
     return [solve.custom_result('vform:rewrite-rules', R.FV, 'fold_constants / _dx_impl / grad / det / inv / ...', R.rule_obligations),
             solve.custom_result('vform:cse-criterion', R.FV, 'VForm.extract_common_expressions / Expr.hash', R.cse_obligations),
+            solve.custom_result('vform:finalize-let-variables', R.FV, 'VForm.finalize / extract_common_expressions', R.let_form_obligations),
             solve.custom_result('vform:finalize', R.FV, 'VForm.finalize / VForm.add', lambda: R.finalize_obligations(tier))]
 
 
